@@ -627,7 +627,8 @@ class Phase(Angle):
     def argsort(self, axis=-1):
         """Returns the indices that would sort the phase array."""
         phase_approx = self.cycle
-        phase_remainder = (self - phase_approx).cycle
+        # What is left over, exactly (as in argmin): both differences are exact
+        phase_remainder = (self["int"] - phase_approx) + self["frac"]
         if axis is None:
             return np.lexsort((phase_remainder.ravel(), phase_approx.ravel()))
         else:
